@@ -474,6 +474,55 @@ def search(payload):
         got = call(comp_p(f_, comp_p(g_, leaf)), x)
         if got != ("ok", True) or [c[1] for c in log] != [want]:
             fails.append({"case": "comp_p(f, comp_p(g, p))(x) must be p(g(f(x)))", "x": repr(x), "result": repr(got), "p_was_called_with": repr([c[1] for c in log]), "expected_argument": repr(want)})
+    # HISTORY on ONE object: comp_p(f, p) applies f at EVERY call (inputs that are == but not the same value, one after the other);
+    # tee_p(f) calls f exactly once per call also after an earlier call in which f raised; all_p / any_p stop at the first
+    # counter-example / witness of an ITERATOR and leave the rest of it unconsumed
+    import math as _math
+    seqs = [("comp_p(str, eq_p('1.0'))", lambda: comp_p(str, PP.EqPredicate(v="1.0")), [True, 1.0, 1, 1.0], lambda x: str(x) == "1.0"),
+            ("comp_p(lambda x: math.copysign(1.0, x), lt_p(0))", lambda: comp_p(lambda x: _math.copysign(1.0, x), lt_p(0)), [0.0, -0.0, 0, -0.0], lambda x: _math.copysign(1.0, x) < 0),
+            ("comp_p(lambda t: type(t[0]), eq_p(float))", lambda: comp_p(lambda t: type(t[0]), PP.EqPredicate(v=float)), [(1, 2), (1.0, 2.0), (True, 2)], lambda t: type(t[0]) is float),
+            ("comp_p(type, eq_p(bool))", lambda: comp_p(type, PP.EqPredicate(v=bool)), [1, True, 1.0, True, 0, False], lambda x: type(x) is bool),
+            ("comp_p(repr, eq_p('1'))", lambda: comp_p(repr, PP.EqPredicate(v="1")), [1.0, 1, True, 1], lambda x: repr(x) == "1")]
+    for label, mk, xs, want in seqs:
+        p = mk()
+        for i, x in enumerate(xs):
+            n += 1
+            got = call(p, x)
+            if got != ("ok", want(x)):
+                fails.append({"case": f"{label}: ONE object called on {xs!r} in turn", "x": repr(x), "call_number": i + 1, "result": repr(got), "expected": want(x)})
+                break
+    seen_by_f = []
+
+    def audit(v):
+        seen_by_f.append(v)
+        if v == "six":
+            raise ValueError("audit refuses 'six'")
+    tp = all_p(tee_p(audit) & ge_p(2))
+    for xs, want_seen in (([3, 4], [3, 4]), ([5, "six", 7], [5, "six"]), ([8, 9], [8, 9])):
+        n += 1
+        del seen_by_f[:]
+        got = call(tp, xs)
+        if seen_by_f != want_seen:
+            fails.append({"case": "ONE all_p(tee_p(audit) & ge_p(2)) called on [3, 4], then [5, 'six', 7] (audit raises on 'six'; caught by the caller), then [8, 9]",
+                          "x": repr(xs), "result": repr(got), "f_was_called_with": repr(seen_by_f), "expected_calls_of_f": repr(want_seen)})
+            break
+    single = tee_p(audit)
+    del seen_by_f[:]
+    n += 1
+    if call(single, 10) != ("ok", True) or seen_by_f != [10]:
+        fails.append({"case": "tee_p(audit)(10) after an earlier tee_p call in which audit raised", "result": repr(call(single, 10)), "f_was_called_with": repr(seen_by_f), "expected_calls_of_f": "[10]"})
+    data = [1, 2, 9, 3, 4, 12, 5]
+    it = iter(data)
+    steps = [("all_p(lt_p(5))", all_p(lt_p(5)), False, [3, 4, 12, 5]), ("any_p(gt_p(10))", any_p(gt_p(10)), True, [5]), ("all_p(lt_p(5))", all_p(lt_p(5)), False, [])]
+    for label, q, want, rest in steps:
+        n += 1
+        got = call(q, it)
+        it, probe = itertools.tee(it)
+        left = list(probe)
+        if got != ("ok", want) or left != rest:
+            fails.append({"case": "one iterator over [1, 2, 9, 3, 4, 12, 5] handed to all_p(lt_p(5)), any_p(gt_p(10)), all_p(lt_p(5)) in turn: each stops at its first "
+                                  "counter-example / witness and leaves the rest", "step": label, "result": repr(got), "expected": want, "left_in_the_iterator": repr(left), "expected_left": repr(rest)})
+            break
     # comp_p on the same (mutable) object twice: f is applied at every call, to the object as it is now
     calls = []
     cp = comp_p(lambda x: (calls.append(list(x)), len(x))[1], atom("P", lambda v: v <= 2))
